@@ -76,14 +76,9 @@ impl Database for SledDB {
     }
 
     fn load(config: Self::Config) -> PmtreeResult<Self> {
-        let db = match config.open() {
-            Ok(db) => db,
-            Err(e) => {
-                return Err(PmtreeErrorKind::DatabaseError(
-                    DatabaseErrorKind::CustomError(format!("Cannot load database: {e}")),
-                ))
-            }
-        };
+        // The file lock of a just dropped instance may not be released yet: wait for it as `new` does.
+        // Failing here would make the caller create a new tree on top of the existing data.
+        let db = Self::new_with_tries(config.clone(), 0)?.0;
 
         if !db.was_recovered() {
             return Err(PmtreeErrorKind::DatabaseError(
